@@ -206,7 +206,7 @@ def ppo_loss(
     )
 
 
-@partial(nnx.jit, static_argnames="epochs")
+@partial(nnx.jit, static_argnames=("epochs", "n_envs"))
 def update_ppo(
     actor: StochasticPolicyBase,
     critic: nnx.Module,
@@ -218,6 +218,7 @@ def update_ppo(
     terminated: jnp.ndarray,
     next_value: jnp.ndarray,
     epochs: int = 1,
+    n_envs: int = 1,
 ) -> jnp.ndarray:
     """Updates the PPO agent.
 
@@ -239,15 +240,22 @@ def update_ppo(
         Array of predicted next_values per step.
     epochs : int, optional
         Number of training epochs.
+    n_envs : int, optional
+        Number of parallel environments of the (environment-major) rollout.
 
     Returns
     -------
     loss_val : jnp.ndarray
         Calculated loss.
     """
-    advs, returns = compute_gae(
-        reward, critic(observation).flatten(), next_value, terminated
+    # the rollout is flattened environment-major: estimate per environment
+    advs, returns = jax.vmap(compute_gae)(
+        reward.reshape(n_envs, -1),
+        critic(observation).flatten().reshape(n_envs, -1),
+        next_value.reshape(n_envs, -1),
+        terminated.reshape(n_envs, -1),
     )
+    advs, returns = advs.flatten(), returns.flatten()
     logp = actor.log_probability(observation, action)
     loss_grad_fn = nnx.value_and_grad(ppo_loss, argnums=(0, 1))
 
@@ -356,6 +364,7 @@ def train_ppo(
             terminated,
             next_value,
             epochs,
+            envs.num_envs,
         )
 
         if logger is not None:
